@@ -18,7 +18,9 @@ func init() {
 			{"SORT-TABLE", ruleSortTable},
 			{"COMPARE-TABLES", ruleCompareTables},
 			{"PANIC-ACCESSOR", rulePanicAccessor},
+			{"CONNOR-TABLE", ruleConnorTable},
 			{"MINMAX-TABLE", ruleMinMaxTable},
+			{"AGG-PIPELINE", ruleAggPipeline},
 			{"LIMIT-TABLE", ruleLimitTable},
 			{"INDEX-GUARD", func(c *eng.Ctx) { ruleIndexGuard(c, "INDEX-GUARD", []string{"internal/planner"}, 5) }},
 		},
